@@ -88,8 +88,19 @@ def ob_build(sysname, how):
             J = j_from_k(K, B)
             L = EL.generate_effective_lindbladian_from_hjk(c, H, J, K, is_physicality_required=False)
         ref = hs_columns_ref(lambda rho: gksl_hk(H, K, B, rho), B, sysname)
-        return [Eq("generator == GKSL right-hand side on every basis element", L.hs, ref.real, 1e-7),
-                Eq("reference has no imaginary part (Hermiticity preserving)", ref.imag, np.zeros((n, n)), 1e-7)]
+        out = [Eq("generator == GKSL right-hand side on every basis element", L.hs, ref.real, 1e-7),
+               Eq("reference has no imaginary part (Hermiticity preserving)", ref.imag, np.zeros((n, n)), 1e-7)]
+        # the same matrices handed over in column-major memory layout
+        if how == "hk":
+            L2 = EL.generate_effective_lindbladian_from_hk(c, fortran_view(H), fortran_view(K), is_physicality_required=False)
+        elif how == "h":
+            L2 = EL.generate_effective_lindbladian_from_h(c, fortran_view(H), is_physicality_required=False)
+        elif how == "k":
+            L2 = EL.generate_effective_lindbladian_from_k(c, fortran_view(K), is_physicality_required=False)
+        else:
+            L2 = EL.generate_effective_lindbladian_from_hjk(c, fortran_view(H), fortran_view(J), fortran_view(K), is_physicality_required=False)
+        out.append(Eq("column-major inputs: the same generator", L2.hs, L.hs, 1e-9))
+        return out
     inp = (herm_inputs("h", d) if "h" in how else []) + (herm_inputs("k", n - 1) if "k" in how else [])
     return FnOb(inp, run, max_paths=20)
 
